@@ -25,9 +25,12 @@ pending = {
  'C19': 'check under construction (process-pool in-process engine not yet committed)',
  'C20': 'check under construction (CRT stub engine not yet committed)',
 }
+import os
 import sys
-if len(sys.argv) > 1:
-    extra = json.load(open(sys.argv[1]))
+_default = os.path.join(os.path.dirname(os.path.abspath(__file__)), 'claims.json')
+_claims = sys.argv[1] if len(sys.argv) > 1 else (_default if os.path.exists(_default) else None)
+if _claims:
+    extra = json.load(open(_claims))
     for k, v in extra.get('claimed', {}).items():
         claimed[k] = tuple(v); pending.pop(k, None)
 checks = []
